@@ -394,3 +394,5 @@ LEVEL_TEXT = ("Machine-checked Lean 4 theorems about `applyNull`, the step of th
 LEVEL_NOTE = ("WHOLE FILE (Props/C06File.lean): C06_file — for every document and option record, the curves of every data window are assignCurves d (applyNull (policy = strict) (nullOf steer.null) raw) of the engine's raw columns; C06_file_cells (NaN iff it was NaN or lies in a float column j != 0 and == NULL; column 0 and text columns untouched), C06_file_unchanged (policy none / no usable NULL), C06_file_null_source (the NULL is the single NULL item of the last ~W section, other sections never matter), counter-examples two NULL items, NULL text abc. 'However it is spelled' is a statement about binary64 parsing, which is a parameter of the model: the model sees canonical float "
               "texts, the harness/oracle establish that differently spelled tokens get equal texts. The write->read clause is checked by the "
               "oracle on the real code only, under the stated separation assumption.")
+
+RULE = RULE + ("; ALSO (fifth session): write cycle with every curve cast to float32 / float16; clause `cycle-nan-text` (no NaN leaves spelled 'nan'); NULL values of more than six significant digits and an integer literal beyond 64 bits")
